@@ -43,6 +43,17 @@ static void setC(const int *d, vcase *c)
     c->n = c->m = 6; c->pat = dev1_pattern(6, base_pattern(6, d[0]), d[1]); c->vals = (g_mode == 5 ? VALS_X[d[2]] : VALS_K[d[2]]); c->colperm = d[3]; c->trans = d[4]; c->equil = d[5];
     common_flags(c, d[6]); c->stor = d[7]; set_tune(c, TUNE_X[d[8]]); c->type = d[9]; c->u = U_LIST[d[1] % 2]; c->nrhs = 1 + (d[1] % 3 == 0) * 2; c->ldbx = d[1] % 2; c->rhs = d[1] % 5; c->permid = -1;
 }
+/* D: orders 10, 12, 16 with generated patterns (structured bases incl. block and interleaved-chain kinds, pseudo-random ones): wide panels, several supernodes, real fill */
+static void setD(const int *d, vcase *c)
+{
+    static const int NN[] = { 12, 10, 16 }, KB[] = { 1, 2, 3, 4, 5, 7, 8, 9, 10, 11, 12 };
+    c->n = c->m = NN[d[0]];
+    if (d[1] < 11) { c->gen = 1; c->pat = (uint64_t)KB[d[1]] | ((uint64_t)((d[1] * 13 + 5) % (c->n * c->n) + 1) << 8); } else { c->gen = 2; c->pat = (uint64_t)(900 + d[1] + 100 * d[0]); }
+    c->vals = (g_mode == 5 ? (int[]){ 2, 15, 4, 1 }[d[2]] : (int[]){ 2, 15, 8, 1 }[d[2]]); c->colperm = (int[]){ 3, 2, 0 }[d[3]]; c->trans = d[4]; c->equil = d[5]; common_flags(c, d[6]); c->stor = d[7];
+    set_tune(c, (int[]){ 0, 11, 5 }[d[8]]); c->type = d[9]; c->u = U_LIST[d[1] % 2]; c->nrhs = 1 + (d[1] % 3 == 0); c->ldbx = d[1] % 2; c->rhs = d[1] % 5; c->permid = -1;
+}
+#define FAM_Dq { "order 12: 11 structured + 24 generated patterns x vals2 x {COLAMD,MMD_AT+A} x trans3 x equil2 x refine2 x stor2 x tune{default,(6,2,6..)} x type4", 10, { 1, 35, 2, 2, 3, 2, 2, 2, 2, 4 }, setD }
+#define FAM_D { "orders 12,10,16: 11 structured + 60 generated patterns x vals4 x {COLAMD,MMD_AT+A,NATURAL} x trans3 x equil2 x refine2 x stor2 x tune{default,(6,2,6..),(3,1,4..)} x type4", 10, { 3, 71, 4, 3, 3, 2, 2, 2, 3, 4 }, setD }
 /* S (C12, C04x): every pattern of ALL(1..3) (singular included) x exact value schemes: growth factor of singular factorizations */
 static const int VALS_S[] = { 0, 1, 6 };
 static void setS(const int *d, vcase *c)
@@ -66,16 +77,16 @@ static void setS4x(const int *d, vcase *c) { setS4(d, c); c->growth = (d[0] >> 7
 #define FAM_S { "ALL(1..3) incl. singular x {V0,V1,V6} x colperm3 x equil2 x type4 x tune3 x stor2 x trans3", 8, { N_ALL123, 3, 3, 2, 4, 3, 2, 3 }, setS }
 #define FAM_S4 { "ALL(4) incl. singular x {V0,V1,V6} x equil2 x type4 x tune3", 5, { N_ALL4, 3, 2, 4, 3 }, setS4 }
 #define FAM_S4q { "ALL(4) incl. singular x {V0,V1,V6} x equil2 x type4 x tune{0}", 5, { N_ALL4, 3, 2, 4, 1 }, setS4 }
-static const family FAM05[] = { FAM_A(7), FAM_B, FAM_C(7) }, FAM05q[] = { FAM_Aq(7), FAM_B, FAM_Cq(7) };
-static const family FAM12[] = { FAM_A(10), FAM_B, FAM_C(10), FAM_S, FAM_S4 }, FAM12q[] = { FAM_Aq(10), FAM_B, FAM_Cq(10), FAM_S, FAM_S4q };
-static const family FAM13[] = { FAM_A(10), FAM_B, FAM_C(10) }, FAM13q[] = { FAM_Aq(10), FAM_B, FAM_Cq(10) };
+static const family FAM05[] = { FAM_A(7), FAM_B, FAM_C(7), FAM_D }, FAM05q[] = { FAM_Aq(7), FAM_B, FAM_Cq(7), FAM_Dq };
+static const family FAM12[] = { FAM_A(10), FAM_B, FAM_C(10), FAM_S, FAM_S4, FAM_D }, FAM12q[] = { FAM_Aq(10), FAM_B, FAM_Cq(10), FAM_S, FAM_S4q, FAM_Dq };
+static const family FAM13[] = { FAM_A(10), FAM_B, FAM_C(10), FAM_D }, FAM13q[] = { FAM_Aq(10), FAM_B, FAM_Cq(10), FAM_Dq };
 #define FAM_SX { "ALL(1..3) incl. singular x {V0,V1,V6} x colperm3 x equil2 x type4 x tune3 x stor2 x trans3 x PivotGrowth2 x ConditionNumber2", 9, { N_ALL123, 3, 3, 2, 4, 3, 2, 3, 4 }, setSx }
 #define FAM_S4X { "ALL(4) incl. singular x {V0,V1,V6} x equil2 x type4 x tune3 (PivotGrowth, ConditionNumber from the pattern index)", 5, { N_ALL4, 3, 2, 4, 3 }, setS4x }
 #define FAM_S4Xq { "ALL(4) incl. singular x {V0,V1,V6} x equil2 x type4 x tune{0} (PivotGrowth, ConditionNumber from the pattern index)", 5, { N_ALL4, 3, 2, 4, 1 }, setS4x }
 static const family FAM04X[] = { FAM_SX, FAM_S4X }, FAM04Xq[] = { FAM_SX, FAM_S4Xq };
 #define NF(F) ((int)(sizeof F / sizeof *F))
 /* other build variants (vendor BLAS, sanitizers): the ALL(1..3) and DEV_1 families only */
-static const family FAM05v[] = { FAM_Aq(7), FAM_Cq(7) }, FAM12v[] = { FAM_Aq(10), FAM_Cq(10), FAM_S }, FAM13v[] = { FAM_Aq(10), FAM_Cq(10) }, FAM04Xv[] = { FAM_SX };
+static const family FAM05v[] = { FAM_Aq(7), FAM_Cq(7), FAM_Dq }, FAM12v[] = { FAM_Aq(10), FAM_Cq(10), FAM_S, FAM_Dq }, FAM13v[] = { FAM_Aq(10), FAM_Cq(10), FAM_Dq }, FAM04Xv[] = { FAM_SX };
 #define DEFSPACE(tag, F, Fq, Fv, mode) \
     static const family *pick_##tag(int tier, int *nf) { if (strcmp(wk_variant, "ref")) { *nf = NF(Fv); return Fv; } if (tier) { *nf = NF(F); return F; } *nf = NF(Fq); return Fq; } \
     static long sz_##tag(int tier) { int nf; const family *f = pick_##tag(tier, &nf); return fam_total(f, nf); } \
@@ -245,6 +256,9 @@ static void run_C12(const vcase *c, vres *r)
                         for (int i = 0; i < n; i++) T->st(xb, i, i == k ? 1.0 : 0.0); SuperLUStat_t s3; StatInit(&s3); T->sp_trsv("L", "N", "U", &X.s.L, &X.s.U, xb, &s3, &i2); StatFree(&s3);
                         fprintf(stderr, "   L*z ="); for (int i = 0; i < n; i++) { xc a = 0; for (int j = 0; j < n; j++) a += DM(&Ld, i, j) * T->ld(xb, j); fprintf(stderr, " %.3Lg%+.3Lgi", creall(a), cimagl(a)); } fprintf(stderr, "\n"); }
                     dmat_print("Ld", &Ld); dmat_print("Ud", &Ud); }
+                /* the documented aliases of the norm argument give the same estimate */
+                { char r1[8], rO[8]; SuperLUStat_t st2; StatInit(&st2); int i2 = 0, i3 = 0; T->gscon("1", &X.s.L, &X.s.U, 1.0, r1, &st2, &i2); T->gscon("O", &X.s.L, &X.s.U, 1.0, rO, &st2, &i3); StatFree(&st2);
+                  if (i2 || i3 || memcmp(r1, rO, T->rsz)) { wk_fail(r, "gscon-alias", "xgscon(\"O\") = %Lg differs from xgscon(\"1\") = %Lg on the same factors (info %d / %d)", T->rld(rO, 0), T->rld(r1, 0), i3, i2); goto done; } }
                 if (rc < lower) { wk_fail(r, "rcond-below-true", "rcond=%Lg is below the true reciprocal condition number 1/kappa=%Lg (norm %s, allowance factor %Lg)", rc, 1 / kappa, notran_eff ? "1" : "inf", 1 - theta - 8.0L * n * T->eps); goto done; }
                 WK_RATIO(1, (double)((1 / kappa) / (rc > 0 ? rc : 1e-300L)));
             } else WK_COUNT(C_VOID);
